@@ -441,7 +441,7 @@ func runTemplates(c *core.Case) {
 	t := genMessage(r.Fork(1), 0, tagged)
 	c.Journal("template")
 	w := map[string]any{"type": ptypes.TypeString(t)}
-	f := &ptypes.Filler{R: r.Fork(2), NoNaN: true}
+	f := &ptypes.Filler{R: r.Fork(2), NoNaN: true, NoNilMapValues: true}
 	v := f.NewValue(t)
 	in, err := proto.Marshal(v.Interface())
 	if err != nil {
